@@ -367,8 +367,15 @@ def opZipReader (j : Json) : Except String Json := do
   | some r => return jResult r
 
 def opUrlKind (j : Json) : Except String Json := do
-  let k := urlKind (← getStr (← j.getObjVal? "scheme")) (← getStr (← j.getObjVal? "path"))
-  return .str (match k with | .file => "file" | .zip => "zip" | .http => "http" | .ftp => "ftp" | .unsupported => "unsupported")
+  let kindName (k : Kind) : String :=
+    match k with | .file => "file" | .zip => "zip" | .http => "http" | .ftp => "ftp" | .unsupported => "unsupported"
+  match j.getObjVal? "netloc" with
+  | .ok nl =>
+    let (k, p) := urlTarget (← getStr (← j.getObjVal? "scheme")) (← getStr nl) (← getStr (← j.getObjVal? "path"))
+    return Json.arr #[.str (kindName k), .str (String.ofList p)]
+  | .error _ =>
+    let k := urlKind (← getStr (← j.getObjVal? "scheme")) (← getStr (← j.getObjVal? "path"))
+    return .str (kindName k)
 end Rd
 
 /-! ### ops: oid (genNumericOid over symbol tables), symreg (symbol registration) -/
@@ -668,7 +675,8 @@ def opCli (j : Json) : Except String Json := do
     let srcs ← getList (fun e => do
       let a ← e.getArr?
       return ({ name := (← (a[0]?.getD Json.null).getStr?), rev := (← rev (a[1]?.getD Json.null)), file := (← (a[2]?.getD Json.null).getNat?) } : Src)) (← j.getObjVal? "srcs")
-    let r := mibcopy true dst srcs
+    let dry := (j.getObjValAs? Bool "dry").toOption.getD false
+    let r := if dry then mibcopyDry true dst srcs else mibcopy true dst srcs
     let sorted := r.dst.mergeSort (fun a b => decide (a.1 ≤ b.1))
     return Json.mkObj [("dst", .arr (sorted.map (fun e => Json.arr #[.str e.1, (match e.2.1 with | some v => (v : Json) | none => .null), e.2.2])).toArray)]
 end Cl
